@@ -53,6 +53,9 @@ inline std::vector<mdl::Obj> make_data(vh::Rng& rng, const Cfg& c, size_t n) {
     return D;
 }
 
+// number of buffers the data is handed to the Writer in (5 unless a harness changes it)
+inline int& buffers_per_file() { static int n = 5; return n; }
+
 struct Outcome {
     std::string threw_at;        // "", "ctor", "write", "flush", "close"
     std::string error_type, error;
@@ -77,7 +80,7 @@ inline Outcome run_writer(const std::string& path, const Cfg& c, const std::vect
             return o;
         }
         auto note = [&](const char* at, const std::exception& e) { if (o.threw_at.empty()) { o.threw_at = at; o.error_type = demangle(typeid(e).name()); o.error = e.what(); } };
-        const size_t per = std::max<size_t>(1, D.size() / 5);
+        const size_t per = std::max<size_t>(1, D.size() / static_cast<size_t>(buffers_per_file()));
         size_t i = 0;
         while (i < D.size() && o.threw_at.empty()) {
             osmium::memory::Buffer buf{16 * 1024, osmium::memory::Buffer::auto_grow::yes};
